@@ -213,6 +213,22 @@ AreaSpec(mem, i, f, g) ==
                 [] OTHER -> [k |-> "any"]
 AcceptArea(mem, i, f, o) == AcceptBySpec(AreaSpec(mem, i, f, EffGet(mem, "mmap")), o)
 
+\* ---- C15: user-defined tag types viewed through the public get_tag -----------------------------------
+\* call: [op "custom_get", t (type name), id (tag type number), sized, words | fixed, es (element size), ea (element alignment)]
+CustomFind(c, call) == FindSpecT(InfoWalk(c.mem), call.id)
+AcceptCustomGet(c, call, o) ==
+  LET f == CustomFind(c, call) IN
+  CASE f.k = "absent" -> o.k = "none"
+    [] f.k = "panic" -> o.k = "panic"
+    [] OTHER ->
+         \/ o.k = "panic"
+         \/ /\ o.k = "some" /\ o.v.at = f.it.at /\ o.v.sv = RoundUp8(f.it.size)
+            \* the typed view's fields alias the tag's bytes
+            /\ IF call.sized
+               THEN o.v.fat = f.it.at + 8 /\ o.v.first = Bytes(c.mem, f.it.at + 8, Min(4, 4 * call.words))
+               ELSE /\ o.v.tat = f.it.at + RoundUp(call.fixed, call.ea)
+                    /\ o.v.tlen = o.v.n * call.es
+                    /\ o.v.sv = SizeOfVal(call.fixed, call.es, call.ea, o.v.n, 8)
 IsInfoRead(call) == call.op \in {"get", "field", "str", "area"}
 AcceptInfoRead(c, trk, call, o) ==
   IF trk.loaded # "bi" THEN o.k = "skipped"
@@ -241,7 +257,8 @@ C05_Accept(c, trk, call, o) ==
        (K.dst /\ f.k = "found" /\ call.op # "str") => AcceptInfoRead(c, trk, call, o)
 \* C15: a typed view either panics or sits at the tag's address with the tag's rounded size
 C15_Accept(c, trk, call, o) ==
-  IF call.op # "get" \/ trk.loaded # "bi" THEN TRUE
+  IF call.op = "custom_get" THEN (IF trk.loaded # "bi" THEN o.k = "skipped" ELSE AcceptCustomGet(c, call, o))
+  ELSE IF call.op # "get" \/ trk.loaded # "bi" THEN TRUE
   ELSE LET K == InfoKind(call.kind)  f == FindSpec(InfoWalk(c.mem), K.id) IN
        f.k = "found" =>
          \/ o.k \in {"panic", "none"}
@@ -335,8 +352,17 @@ AcceptHAcc(c, trk, call, o) ==
          [] call.f = "checksum" -> IsVal(o, Bytes(c.mem, 12, 4))
          [] call.f = "verify_checksum" -> o = BoolVal(TRUE)         \* a loaded header has a valid checksum
          [] OTHER -> TRUE
+\* accessors of a bare basic header (16 bytes, not loaded): stored words and checksum validity
+BasicSpec(mem, f) ==
+  CASE f = "header_magic" -> Val(Bytes(mem, 0, 4))
+    [] f = "arch" -> Val(Bytes(mem, 4, 4))
+    [] f = "length" -> Val(Bytes(mem, 8, 4))
+    [] f = "checksum" -> Val(Bytes(mem, 12, 4))
+    [] f = "verify_checksum" -> BoolVal(ChecksumOk(Bytes(mem, 0, 4), Bytes(mem, 4, 4), Bytes(mem, 8, 4), Bytes(mem, 12, 4)))
+    [] OTHER -> Unit
 C10_Accept(c, trk, call, o) ==
   CASE call.op = "hload" -> AcceptHLoad(IsNull(call), c.mem, o)
+    [] call.op = "basic" -> o = BasicSpec(c.mem, call.f)
     [] call.op = "calc_checksum" ->
          /\ o.k = "val" /\ ChecksumOk(call.magic, U32Bytes(call.arch), call.length, o.v)
          /\ o.twin = o.v
@@ -425,7 +451,7 @@ C20_Accept(c, trk, call, o) ==
     [] OTHER -> TRUE
 
 \* ---- C01: never outside the region, never a crash, references inside the owning tag ------------
-InfoOps == {"load", "tags", "module_tags", "efi_areas", "elf_sections", "elf_sections_deprecated", "next", "clone",
+InfoOps == {"custom_get", "load", "tags", "module_tags", "efi_areas", "elf_sections", "elf_sections_deprecated", "next", "clone",
             "len", "size_hint", "get", "field", "str", "area", "dbg", "elf_field", "elf_name"}
 \* the extent a call's results must stay in
 OwnerExtent(c, trk, call) ==
@@ -533,6 +559,20 @@ DesignHdrRead(mem, call) ==
          IF cst.k = "panic" THEN Panic
          ELSE IF call.op = "hget" THEN Some(ViewRec(f.it))
          ELSE Canon(HFieldSpec(mem, call.kind, call.f, f.it))
+
+DesignCustomGet(c, call) ==
+  LET f == DesignFind(c.mem, U32At(c.mem, 0), 8, call.id) IN
+  CASE f.k = "absent" -> None
+    [] f.k = "panic" -> Panic
+    [] OTHER ->
+         IF call.sized THEN
+            LET r == DesignCastSized(f.it.at, RoundUp8(8 + 4 * call.words), f.it.size) IN
+            IF r.k = "panic" THEN Panic
+            ELSE Some([at |-> r.v.at, sv |-> r.v.sv, fat |-> f.it.at + 8, first |-> Bytes(c.mem, f.it.at + 8, Min(4, 4 * call.words))])
+         ELSE
+            LET r == DesignCastDst(f.it.at, call.fixed, call.es, call.ea, f.it.size) IN
+            IF r.k = "panic" THEN Panic
+            ELSE Some([at |-> r.v.at, sv |-> r.v.sv, tat |-> f.it.at + RoundUp(call.fixed, call.ea), n |-> r.v.n, tlen |-> r.v.n * call.es])
 
 DesignStep(c, ds, call) ==
   CASE call.op = "ref_from_slice" ->
@@ -642,6 +682,10 @@ DesignStep(c, ds, call) ==
     [] IsHdrRead(call) ->
          [o |-> IF ds.loaded # "hdr" THEN Skipped ELSE DesignHdrRead(c.mem, call), ds |-> ds]
     [] call.op = "hdbg" -> [o |-> IF ds.loaded = "none" THEN Skipped ELSE Unit, ds |-> ds]
+    [] call.op = "basic" ->       \* verify_checksum recomputes the checksum and compares
+         [o |-> IF call.f = "verify_checksum"
+                THEN BoolVal(ChecksumBytes(Bytes(c.mem, 0, 4), Bytes(c.mem, 4, 4), Bytes(c.mem, 8, 4)) = Bytes(c.mem, 12, 4))
+                ELSE BasicSpec(c.mem, call.f), ds |-> ds]
     [] call.op = "find_header" ->
          [o |-> IF Al(c) # 0 THEN [k |-> "err"]
                 ELSE IF Has(c, "memx") THEN HdrFindSpecX(c.memx, 8192)     \* design = statement here; MC_FindSmall relates
@@ -649,6 +693,7 @@ DesignStep(c, ds, call) ==
     [] call.op = "calc_checksum" ->
          LET v == ChecksumBytes(call.magic, U32Bytes(call.arch), call.length) IN
          [o |-> [k |-> "val", v |-> v, twin |-> v], ds |-> ds]
+    [] call.op = "custom_get" -> [o |-> IF ds.loaded # "bi" THEN Skipped ELSE DesignCustomGet(c, call), ds |-> ds]
     [] call.op = "dbg" ->      \* Debug formatting: only the outcome class is specified (C01: controlled)
          [o |-> IF ds.loaded = "none" THEN Skipped ELSE Unit, ds |-> ds]
     [] OTHER -> [o |-> [k |-> "unsupported"], ds |-> ds]
